@@ -4,3 +4,4 @@ pub mod recovery;
 pub mod ide_sweep;
 pub mod history;
 pub mod cancel;
+pub mod messages;
